@@ -75,6 +75,13 @@ def check_pair(opt, cfg, cfg2, p1, p2, t1, t2, g, viol):
     s1 = {sh['label']: sh for sh in p1['shapes']}
     s2 = {sh['label']: sh for sh in p2['shapes']}
     if set(s1) != set(s2):
+        if opt == 'disable_or' and cfg['remove_empty']:
+            # a reference to a shape that is removed as empty takes its whole constraint with it (F-C02-2); with and without
+            # disjunctions different constraints are hit, so a shape can end up empty - and be removed - in one variant only
+            fid = F.match(kf_global, {"kind": "order_dependent_keys", "cfg": cfg, "keys": [(False, '', 'nonliteral')], "a_shape_was_removed": True})
+            if fid:
+                reproduced_global.add(fid)
+                return
         bad("set of shapes changed")
         return
     on, off = (s1, s2) if cfg[opt] else (s2, s1)       # `on`: option True
@@ -86,7 +93,13 @@ def check_pair(opt, cfg, cfg2, p1, p2, t1, t2, g, viol):
             ka = {(st['inv'], st['prop'], base.stmt_vclass(st, cfg)) for st in on[lab]['stmts']}
             kb = {(st['inv'], st['prop'], base.stmt_vclass(st, cfg)) for st in off[lab]['stmts']}
             if ka != kb:
-                bad("keys changed", label=lab)
+                diff = list(ka ^ kb)
+                fid = F.match(kf_global, {"kind": "order_dependent_keys", "cfg": cfg, "keys": diff,
+                                          "a_shape_was_removed": len(s1) < len(gen.classes_of(g, cfg['inst_prop']) if cfg['target_mode'] == 'all' else cfg['targets'])})
+                if fid:
+                    reproduced_global.add(fid)
+                else:
+                    bad("keys changed", label=lab)
             continue
         if set(a) != set(b):
             bad("set of constraints changed", label=lab)
